@@ -288,3 +288,103 @@ func TestC12Forget(t *testing.T) {
 		}
 	}
 }
+
+// Close while a fire-and-forget transaction is still retransmitting (what an application does that closes its
+// relayed socket - Refresh 0, fire-and-forget - and then the client): "or with an error when the client is closed"
+// has nobody to tell here, but the transaction ends all the same: nothing more is sent, nothing stays in the table.
+type Case4 struct {
+	RTOms      int `json:"rto_ms"`
+	CloseAfter int `json:"close_after"` // Close half an interval after transmission k of the pending fire-and-forget transaction
+}
+
+func runForgetClose(t *testing.T, c Case4) (viols []viol, sent int) {
+	t.Helper()
+	var harnessErr string
+	w, leak := runBubble(t, func() (w *world) {
+		defer func() {
+			if e := recover(); e != nil {
+				harnessErr = fmt.Sprint(e)
+			}
+		}()
+		var err error
+		rto := effRTO(c.RTOms)
+		if w, err = newWorld(time.Duration(c.RTOms) * time.Millisecond); err != nil {
+			panic(err)
+		}
+		msg, err := stun.Build(stun.NewTransactionIDSetter(txid("forget-close-A")), stun.BindingRequest)
+		if err != nil {
+			panic(err)
+		}
+		if _, err := w.cl.PerformTransaction(msg, srvAddr, true); err != nil {
+			w.violate("fire-and-forget-start-failed", "%v", err)
+		}
+		s, _ := sendTimes(0, rto)
+		iv := intervals(rto)
+		w.goTo(s[c.CloseAfter] + iv[c.CloseAfter]/2)
+		sent = len(w.arrivals())
+		w.closeClient("while-fire-and-forget-pending")
+		time.Sleep(10 * time.Second)
+		synctest.Wait()
+		if n := len(w.arrivals()); n != sent {
+			w.violate("forget:retransmission-after-Close", "%d transmissions before Close, %d more within 10 s after it", sent, n-sent)
+		}
+		if n := tableSize(w.cl); n != 0 {
+			w.violate("forget:table-not-empty-after-Close", "Client.trMap.Size()=%d", n)
+		}
+		_ = w.cs.Close()
+		_ = w.ss.Close()
+		_ = w.os.Close()
+		synctest.Wait()
+
+		return w
+	})
+	if w != nil {
+		viols = append(viols, w.viols...)
+	}
+	if harnessErr != "" {
+		viols = append(viols, viol{"panic:harness-or-library-in-root", harnessErr})
+	}
+	if leak != "" {
+		viols = append(viols, viol{"goroutine-leak-or-panic:bubble", leak})
+	}
+
+	return viols, sent
+}
+
+func TestC12ForgetClose(t *testing.T) {
+	r := rep.New("C12")
+	defer r.Write()
+	if i, _ := rep.Shard(); i != 0 {
+		return
+	}
+	if rep.ReplayPath() != "" {
+		var c Case4
+		loadReplay(&c)
+		v, sent := runForgetClose(t, c)
+		fmt.Printf("case: %+v, %d transmissions before Close\n", c, sent)
+		for _, x := range v {
+			fmt.Printf("VIOLATION %s: %s\n", x.sig, x.detail)
+		}
+
+		return
+	}
+	rtos := []int{0, 100, 800}
+	if rep.Thorough() {
+		rtos = []int{0, 1, 100, 300, 400, 800, 1000, 1600}
+	}
+	for _, rto := range rtos {
+		for k := 1; k <= 6; k++ {
+			c := Case4{RTOms: rto, CloseAfter: k}
+			rep.Current(map[string]any{"part": "forget-close", "case": c})
+			stop := r.Guard(30*time.Second, "c12-forget-close:case-never-quiesces", func() any { return c })
+			v, sent := runForgetClose(t, c)
+			stop()
+			r.Evaluations++
+			r.Class(fmt.Sprintf("fire-and-forget pending, Close after transmission %d -> %d sent, then silence", k, sent))
+			for _, x := range v {
+				r.Violate(rep.Violation{Oracle: "c12-forget-close", Signature: x.sig, Detail: fmt.Sprintf("%+v: %s", c, x.detail),
+					Replay: map[string]any{"engine": "c12-forget-close", "case": c}})
+			}
+		}
+	}
+}
